@@ -381,7 +381,7 @@ func (e *c02Env) runScript(sc c02Script, rep int) (string, map[string]interface{
 }
 
 func c02(r *ev.Run) {
-	r.Rule("forced orderings: {pause point holding the request} x {backend connection reset / closed, host removed, hosts replaced, client closes} x {simple request, MGET child, ASK-redirected request}, each repeated (a losing outcome may be a coin flip); full-queue script (node stops reading until > 1024 requests are outstanding, then dies); redirections between two backends whose queues are full (a cycle, and a host removal while a redirection into a silent full backend is pending); random fault stress with probabilistic delays at the pause points; distinct = distinct (hook, fault, class) scripts that reached their pause point + stress fault kinds")
+	r.Rule("forced orderings: {pause point holding the request} x {backend connection reset / closed, host removed, hosts replaced, client closes} x {simple request, MGET child, ASK-redirected request}, each repeated (a losing outcome may be a coin flip); full-queue script (node stops reading until > 1024 requests are outstanding, then dies); redirections between two backends whose queues are full (a cycle, and a host removal while a redirection into a silent full backend is pending); the service stopped under pipelined (and redirected) traffic; random fault stress with probabilistic delays at the pause points; distinct = distinct (hook, fault, class) scripts that reached their pause point + stress fault kinds")
 	r.Assume("bounded-progress restatement of 'eventually': a request is lost if it is unanswered 3 s after the fault ended AND fresh canary requests through the same backends succeed AND two goroutine dumps 300 ms apart both show a session writer in rawRequest.Wait; anything else is inconclusive")
 	r.Assume("pause points are placed between critical sections / at channel operations only (utils/vhook), so every forced ordering is one the scheduler could produce")
 	switch os.Getenv("VERIF_C02_ONLY") { // debugging aid: the volume requirements then report the run inconclusive
@@ -390,6 +390,12 @@ func c02(r *ev.Run) {
 		return
 	case "filtered":
 		c02FilteredAfterPending(r)
+		return
+	case "stress":
+		c02Stress(r)
+		return
+	case "stop":
+		c02StopUnderTraffic(r)
 		return
 	}
 	e := &c02Env{r: r}
@@ -481,6 +487,7 @@ func c02(r *ev.Run) {
 	c02RedirectFullQueues(r)
 	r.Require("redirect_cycle_answered", 1)
 	r.Require("host_removed_while_redirecting", 1)
+	c02StopUnderTraffic(r)
 	c02MultiKeyStorm(r)
 	runAPIPart(r, "children", false, nil, 10*time.Minute)
 	c02Stress(r)
@@ -742,8 +749,13 @@ func c02Stress(r *ev.Run) {
 			sc.conn.Close()
 		}
 		if race {
-			for _, rr := range raceReports(s, []string{"proc/redis/request.go"}) {
-				r.Violation("C02:race:"+rr.Key, "data race on request completion state", map[string]interface{}{"report": rr.Text})
+			for _, rr := range raceReports(s, []string{"proc/redis/request.go", "proc/redis/upstream.go"}) {
+				// upstream.go: only the hand-over of a backend client between concurrent requesters decides here (the unsynchronised
+				// slots table read by chooseHost while a refresh writes it is a different matter, judged behaviourally by C03 / C14)
+				if strings.Contains(rr.Key, "upstream.go") && !strings.Contains(rr.Text, "(*upstream).getClient()") {
+					continue
+				}
+				r.Violation("C02:race:"+rr.Key, "data race on request completion state / on the backend client handed to concurrent requesters", map[string]interface{}{"report": rr.Text})
 			}
 		}
 		r.Cases(int(atomic.LoadInt32(&faultsDone)), "")
@@ -1190,4 +1202,90 @@ func c02RedirectFullQueues(r *ev.Run) {
 		sb.conn.Close()
 		finish()
 	}
+}
+
+// c02StopUnderTraffic: the service is stopped while sessions keep decoding pipelined requests (a session goes on with what is in its
+// read buffer even after its connection was closed): requests reach the upstream after it has been told to quit. Each must be
+// completed exactly once - a second completion is a panic that takes the process down.
+func c02StopUnderTraffic(r *ev.Run) {
+	reps := 4
+	if r.Tier == "thorough" {
+		reps = 25
+	}
+	for rep := 0; rep < reps; rep++ {
+		s, err := startSUT(r, false, 600000, 20)
+		if err != nil {
+			r.Internal("start sut: %v", err)
+			return
+		}
+		cl, err := fakecluster.New(3, 0)
+		if err != nil {
+			r.Internal("fakecluster: %v", err)
+			s.Close()
+			return
+		}
+		cl.AssignContiguous()
+		cl.LogArgs = false
+		svc, err := startRedisSvc(s, cl, cl.Addrs(), RedisOpts{ConnTimeout: 300 * time.Millisecond})
+		if err != nil || !svc.WaitRouting(1, 10*time.Second) {
+			r.Internal("service did not start: %v", err)
+			s.Close()
+			cl.Close()
+			return
+		}
+		if rep%2 == 1 {
+			// half of the slots are stale: redirections are in flight too
+			ms := cl.Masters()
+			cl.Lock()
+			for sl := 0; sl < fakecluster.NumSlots; sl += 2 {
+				cl.SetOwnerLocked(sl, ms[(sl/2)%len(ms)])
+			}
+			cl.Unlock()
+		}
+		var wg sync.WaitGroup
+		for c := 0; c < 8; c++ {
+			conn, err := svc.Dial()
+			if err != nil {
+				continue
+			}
+			wg.Add(1)
+			go func(c int, conn *rclient.Conn) {
+				defer wg.Done()
+				defer conn.Close()
+				for round := 0; round < 100000; round++ {
+					var buf []byte
+					for i := 0; i < 64; i++ {
+						buf = append(buf, resp.CmdS("SET", fmt.Sprintf("sut%d.%d.%d", c, round, i), "v")...)
+					}
+					conn.C.SetWriteDeadline(time.Now().Add(5 * time.Second))
+					if _, err := conn.C.Write(buf); err != nil {
+						return
+					}
+					for i := 0; i < 64; i++ {
+						if _, err := conn.Read(5 * time.Second); err != nil {
+							return
+						}
+					}
+				}
+			}(c, conn)
+		}
+		time.Sleep(time.Duration(30+rep*17%90) * time.Millisecond)
+		stopErr := s.StopProc(svc.Name, 15*time.Second)
+		wg.Wait()
+		time.Sleep(100 * time.Millisecond)
+		if !s.Alive() {
+			r.Violation("C02:died:"+crashClass(s.CrashLine()), "the proxy died while its service was stopped under pipelined traffic: "+s.CrashLine(),
+				map[string]interface{}{"script": "stop-under-traffic", "redirections_in_flight": rep%2 == 1, "log_tail": s.LogTail(3000)})
+			cl.Close()
+			return
+		}
+		if stopErr == sutc.ErrTimeout {
+			r.Inconclusive("stop-under-traffic-stop-timeout") // C09 judges hangs of Stop
+		}
+		r.Count("stops_under_traffic", 1)
+		r.Case(fmt.Sprintf("script/stop-under-traffic/redirects=%v", rep%2 == 1))
+		s.Close()
+		cl.Close()
+	}
+	r.Require("stops_under_traffic", 2)
 }
